@@ -203,7 +203,7 @@ func calculate(doc billable) error {
 
 func calculateOrgDocumentRefs(drs []*org.DocumentRef, cur currency.Code, rr cbc.Key) {
 	for _, drs := range drs {
-		if drs.Currency != currency.CodeEmpty {
+		if drs.Currency != currency.CodeEmpty && drs.Currency.Def() != nil {
 			cur = drs.Currency
 		}
 		drs.Calculate(cur, rr)
